@@ -325,6 +325,18 @@ fn builder_script(args: &[String]) {
                 "br" => format!("{:?}", b.branch(7).map_err(|e| format!("{:?}", e))),
                 "kill" => format!("{:?}", b.kill().map_err(|e| format!("{:?}", e))),
                 "lifetime" => format!("{:?}", b.lifetime_start(7, 4).map_err(|e| format!("{:?}", e))),
+                "lifetime_stop" => format!("{:?}", b.lifetime_stop(7, 4).map_err(|e| format!("{:?}", e))),
+                "demote" => format!("{:?}", b.demote_to_helper_invocation().map_err(|e| format!("{:?}", e))),
+                "insert_lifetime" => format!("{:?}", b.insert_lifetime_start(InsertPoint::End, 7, 4).map_err(|e| format!("{:?}", e))),
+                "insert_lifetime_stop" => format!("{:?}", b.insert_lifetime_stop(InsertPoint::End, 7, 4).map_err(|e| format!("{:?}", e))),
+                "insert_demote" => format!("{:?}", b.insert_demote_to_helper_invocation(InsertPoint::End).map_err(|e| format!("{:?}", e))),
+                "assemble_load" => {
+                    use rspirv::binary::Assemble;
+                    let m = b.module_ref().clone();
+                    let mut m2 = m.clone();
+                    if m2.header.is_none() { m2.header = Some(rspirv::dr::ModuleHeader::new(100)); }
+                    format!("{:?}", rspirv::dr::load_words(m2.assemble()).map(|_| "loaded").map_err(|e| format!("{:?}", e).chars().take(60).collect::<String>()))
+                }
                 "param" => format!("{:?}", b.function_parameter(1).map_err(|e| format!("{:?}", e))),
                 "var" => format!("{}", b.variable(1, None, spirv::StorageClass::Function, None)),
                 "undef" => format!("{}", b.undef(1, None)),
